@@ -598,6 +598,28 @@ def r_normalize_order(cx):
     them. And split_into_steps turns both CR LF and a bare CR into LF before it splits lines."""
     f = cx.f.fn("<T as token::Tokenize>::normalize")
     chain = _replace_chain(f)
+    if sum(1 for x in chain if x[1] is not None) < 5:
+        # table driven form: a constant array of (from, to) pairs applied in order by a loop
+        import consts
+        tables = []
+
+        def vis(x):
+            if x[0] == "const" and isinstance(x[2], tuple) and x[2] and x[2][0] == "path":
+                tables.append(x[2][1])
+            return True
+        for bb, t in f.calls():
+            for a in f.arg_terms(bb):
+                mir.walk(a, vis)
+        for path in tables:
+            try:
+                v = consts.const_value(cx.f, path)
+            except Exception:
+                v = None
+            if isinstance(v, (list, tuple)) and len(v) >= 5 and all(
+                    isinstance(p, (list, tuple)) and len(p) == 2 and all(isinstance(q, str) for q in p) for p in v):
+                pre = [x for x in chain if x[1] is not None]
+                chain = pre + [(0, p[0], p[1]) for p in v]
+                break
     n = 0
     for j, (bbj, fj, tj) in enumerate(chain):
         if fj is None or tj is None or not (len(fj) == len(tj) + 1 and fj.replace(" ", "", 1) == tj and " " in fj):
